@@ -9,7 +9,8 @@ STAT_NAMES = ["initiation_consumed", "initiation_bad_mac1", "initiation_aead_fai
               "transport_accepted", "transport_replayed_or_out_of_window", "transport_bad_tag",
               "transport_wrong_index_or_dead_session", "batch_with_several_elements", "tun_initiation", "tun_transport",
               "tun_staged_only", "uapi_endpoint", "steps_where_an_endpoint_moved", "confirming_element_released_staged",
-              "restart_down_up", "send_counter_over_rekey_limit", "tun_transport_and_rekey_initiation"]
+              "restart_down_up", "send_counter_over_rekey_limit", "tun_transport_and_rekey_initiation",
+              "keypairs_aged_beyond_180s", "transport_under_expired_keypair"]
 
 
 class Prop:
